@@ -232,8 +232,16 @@ def apply(x, op, sym):
         a, b = sorted({idx % (n + 1), abs(j or 0) % (n + 1)})[0], sorted({idx % (n + 1), abs(j or 0) % (n + 1)})[-1]
         if a == b or b >= n:
           raise core.InvalidCase('skip')
-        obj[a] = v
-        obj[b] = w
+        # (keys of one batch address the list as it was before the batch, negative ones included)
+        if m % 3 == 1:
+          obj[b] = w
+          del obj[a]
+        elif m % 3 == 2:
+          obj[a] = v
+          del obj[b]
+        else:
+          obj[a] = v
+          obj[b] = w
       return None
     if name == 'rebind':
       mode = m % 4
@@ -249,7 +257,12 @@ def apply(x, op, sym):
       a, b = sorted({idx % (n + 1), abs(j or 0) % (n + 1)})[0], sorted({idx % (n + 1), abs(j or 0) % (n + 1)})[-1]
       if a == b or b >= n:
         raise core.InvalidCase('skip')
-      obj.rebind({a: v, b: w})
+      if m % 3 == 1:
+        obj.rebind({a: pg.MISSING_VALUE, b - n: w})
+      elif m % 3 == 2:
+        obj.rebind({a - n: v, b: pg.MISSING_VALUE})
+      else:
+        obj.rebind({a: v, b: w})
     return None
   # ---- dict ops
   if name == 'dset':
